@@ -82,9 +82,9 @@ type Cmd struct {
 	Dir     string
 	Stdin   string
 	Timeout time.Duration
-	FSize   int64 // RLIMIT_FSIZE in bytes, <0 = none
-	AS      int64 // RLIMIT_AS in bytes, <=0 = none
-	UID     int   // run as this uid/gid when > 0
+	FSize   int64  // RLIMIT_FSIZE in bytes, <0 = none
+	AS      int64  // RLIMIT_AS in bytes, <=0 = none
+	UID     int    // run as this uid/gid when > 0
 	Helper  string // run the test binary itself as this helper instead of Path
 }
 
